@@ -538,6 +538,12 @@ def check_matrix_solve(A, op, rhs, kw, lhs0, outcome, faulted, cplx):
         scale = float(numpy.linalg.norm(A[numpy.ix_(I, J)], 2) if I.any() and J.any() else 0.) * _norm(x[J] - x0[J]) + r0
         if not res <= 1e-8 * scale + 1e-300:
             return ('R-machine-precision', f'no tolerance requested, honest back end, but residual {res:.3e} is large compared with {scale:.3e}')
+    elif not faulted and op['solver'] == 'arnoldi' and op['precon'] != 'direct' and op.get('truncate') is None:
+        # "solve to machine precision" (the documented meaning of atol = rtol = 0) with a preconditioner that does not itself fail on a
+        # singular matrix: the Krylov loop ends on stagnation or breakdown and hands back whatever it has (known finding, see DESIGN 13)
+        scale = float(numpy.linalg.norm(A[numpy.ix_(I, J)], 2) if I.any() and J.any() else 0.) * _norm(x[J] - x0[J]) + r0
+        if not res <= 1e-6 * scale + 1e-300:
+            return ('R-no-tolerance-stagnated-iterate-returned', f'no tolerance requested (= machine precision), honest back end, arnoldi with precon={op["precon"]}: returned silently with residual {res:.3e} (scale {scale:.3e}, matrix condition class {op.get("_cond")})')
     return None
 
 
